@@ -35,9 +35,14 @@ def program(rng):
     lines, structs = [], {}
     loc = 0
     nbuf = -1
+    restart = rng.random() < 0.3      # every struct starts at location 0 again: fine for structs of different entry points
+    struct_locs = {}
     for n in names:
         k = rng.randint(1, 5)
+        if restart:
+            loc = 0
         locs = list(range(loc, loc + k))
+        struct_locs[n] = set(locs)
         loc += k + rng.randint(0, 2)
         if rng.random() < 0.4:
             rng.shuffle(locs)
@@ -46,6 +51,7 @@ def program(rng):
             fields.insert(rng.randrange(len(fields) + 1), "@builtin(vertex_index) vi: u32")
         elif rng.random() < 0.1:
             fields = ["@builtin(instance_index) ii: u32"]
+            struct_locs[n] = set()
         structs[n] = fields
         lines.append("struct %s { %s }" % (n, ", ".join(fields)))
         if rng.random() < 0.3 and not any("f64" in f for f in fields):
@@ -59,10 +65,14 @@ def program(rng):
     nent = rng.randint(1, 3)
     for e in range(nent):
         chosen, used_bi = [], set()
+        used_locs = set()
         for n in rng.sample(names, rng.randint(1, min(3, nstruct))):
             bi = {f.split("(")[1].split(")")[0] for f in structs[n] if "@builtin" in f}
             if bi & used_bi:
                 continue
+            if struct_locs[n] & used_locs:
+                continue             # within ONE entry point locations are unique
+            used_locs |= struct_locs[n]
             used_bi |= bi
             chosen.append(n)
         params = ["p%d: %s" % (i, n) for i, n in enumerate(chosen)]
